@@ -208,6 +208,10 @@ def build_config(spec, workdir):
     from vf import verif_input_handlers
     verif_input_handlers.register()
     os.makedirs(workdir, exist_ok=True)
+    if spec.get("dump_interval") and spec["kind"] != "with_dump":
+        inner = dict(spec)
+        di = inner.pop("dump_interval")
+        return add_dumping(build_config(inner, workdir), di, workdir)
     if spec["kind"] == "shipped":
         return shipped(spec["name"], workdir, spec.get("end"), spec.get("overrides"))
     if spec["kind"] == "spheres":
@@ -315,4 +319,23 @@ def gen_molecules(p, workdir):
         json.dump({"roots": p["positions"]}, f)
     cfg["VerifStateInputHandler"] = {"filename": os.path.join(workdir, "state.json")}
     cfg["SeparationOutputHandler"] = {"filename": os.path.join(workdir, "separations.dat")}
+    return cfg
+
+
+def add_dumping(cfg, interval, workdir):
+    """Add a fixed-interval dumping tagger to any configuration (the way power_bounded_dump.ini does)."""
+    tag = cfg.get("TagActivator", "taggers")
+    if "dumping" in tag:
+        cfg.set("FixedIntervalDumpingEventHandler", "dumping_interval", repr(interval))
+        cfg.set("DumpingOutputHandler", "filename", os.path.join(workdir, "dump.dat"))
+        return cfg
+    cfg.set("TagActivator", "taggers", tag.rstrip().rstrip(",") + ",\ndumping (no_in_state_tagger)")
+    cfg["Dumping"] = {"create": "dumping", "trash": "dumping", "event_handler": "fixed_interval_dumping_event_handler"}
+    cfg["FixedIntervalDumpingEventHandler"] = {"dumping_interval": repr(interval), "output_handler": "dumping_output_handler"}
+    cfg["DumpingOutputHandler"] = {"filename": os.path.join(workdir, "dump.dat")}
+    for sec, opt in (("StartOfRun", "create"), ("EndOfRun", "trash")):
+        cfg.set(sec, opt, cfg.get(sec, opt).rstrip().rstrip(",") + ", dumping")
+    if cfg.has_option("StartOfRun", "activate"):
+        cfg.set("StartOfRun", "activate", cfg.get("StartOfRun", "activate").rstrip().rstrip(",") + ", dumping")
+    cfg.set("InputOutputHandler", "output_handlers", cfg.get("InputOutputHandler", "output_handlers") + ", dumping_output_handler")
     return cfg
